@@ -29,6 +29,11 @@ pub struct EncSpec {
     /// source (what bita's writers produce). The schema does not tie the table order to anything: rebuild_order indexes it.
     #[serde(default)]
     pub desc_keys: Vec<u16>,
+    /// record this compression level in the header instead of the one the encoder used. The schema leaves the field
+    /// free (uint32) and a reader needs only the algorithm to decompress: another tool may record 0 (e.g. Brotli quality 0)
+    /// or a scale of its own.
+    #[serde(default)]
+    pub recorded_level: Option<u32>,
 }
 
 pub struct Encoded {
@@ -153,7 +158,14 @@ pub fn encode_archive(source: &[u8], cfg: &ArchCfg, spec: &EncSpec) -> Encoded {
         source_checksum: crate::util::blake2b512(source),
         source_total_size: source.len() as u64,
         chunker_params: Some(params_fields(&cfg.chunker, hl)),
-        chunk_compression: Some(comp_fields(cfg.comp)),
+        chunk_compression: Some(match (spec.recorded_level, cfg.comp) {
+            (Some(l), c) if c != Comp::None => {
+                let mut f = comp_fields(c);
+                f.compression_level = l;
+                f
+            }
+            (_, c) => comp_fields(c),
+        }),
         rebuild_order: rebuild,
         chunk_descriptors: uniq
             .iter()
